@@ -344,13 +344,13 @@ Inductive call :=
 | CInt (v : Z) | CUint (u : Z) | CBigInt (z : Z) | CFloat (f : fdec)
 | CBigFloat (b : bfl) | CDec (d : dec) | CBigDec (d : dec).
 
-(* builder_event_rcv.go.  OnNegativeInt: 0 becomes OnFloat(negZero) where the Go constant
-   expression -zero is +0; 1..2^63-1 become OnInt(-value); above that the magnitude is put into
+(* builder_event_rcv.go.  OnNegativeInt: 0 becomes OnFloat(math.Copysign(0, -1)), the float
+   negative zero; 1..2^63-1 become OnInt(-value); above that the magnitude is put into
    a big.Int with SetUint64 and negated. *)
 Definition route (s : src) : call :=
   match s with
   | SPos n => CUint n
-  | SNeg n => if n =? 0 then CFloat (FFin false 0 (-1074))
+  | SNeg n => if n =? 0 then CFloat (FFin true 0 (-1074))
               else if n <=? p63 - 1 then CInt (- n)
               else CBigInt (- n)
   | SInt z => CInt z
@@ -480,7 +480,7 @@ Section Conv.
     | TFloat w, CInt v => float_from_int w v
     | TFloat w, CUint u => float_from_uint w u
     | TFloat w, CBigInt z => float_from_bigint w z
-    | TFloat w, CFloat (FFin false 0 _) => Stored (StFloat (FFin false 0 0))  (* +0 from OnNegativeInt(0) *)
+    | TFloat w, CFloat (FFin s 0 _) => Stored (StFloat (FFin s 0 0))  (* setFloatFromFloat on a zero: -0 from OnNegativeInt(0) *)
     | TFloat _, _ => Failed        (* float destination from a non-integer source: outside C19, not modelled *)
 
     | TBigInt, CInt v => Stored (StBigInt v)
